@@ -361,8 +361,46 @@ def r5(ctx, R):
         R.undecided("C02.R5", f.short, "ranged edit", loc(f, f.node), "no recognised splice shape")
 
 
+def r6(ctx, R):
+    R.rule("C02.R6", "the raw change text is written into one existing line only when the splitter found exactly one line in it (the shortcut and the splitter agree on what a line break is)", floor=1, confirmed=1)
+    f = edit_routine(ctx)
+    F = ctx.facts(f, interproc=False)
+    raw = None
+    for st in ctx.m.walk_own(f.node):
+        if isinstance(st, ast.Assign) and isinstance(st.targets[0], ast.Name) and isinstance(st.value, ast.Call) and isinstance(st.value.func, ast.Attribute) and st.value.func.attr == "get" and st.value.args and isinstance(st.value.args[0], ast.Constant) and st.value.args[0].value == "text":
+            raw = st.targets[0].id
+        elif isinstance(st, ast.Assign) and isinstance(st.targets[0], ast.Name) and isinstance(st.value, ast.Subscript) and isinstance(st.value.slice, ast.Constant) and st.value.slice.value == "text":
+            raw = st.targets[0].id
+    if raw is None:
+        raise AnalysisError(f"{f.short}: variable holding change['text'] not found")
+    split_vars = set()
+    for st in ctx.m.walk_own(f.node):
+        if isinstance(st, ast.Assign) and isinstance(st.targets[0], ast.Name) and isinstance(st.value, ast.Call) and any(isinstance(a, ast.Name) and a.id == raw for a in st.value.args) and splitter_of(ctx, f, st.value)[0] != "other":
+            split_vars.add(st.targets[0].id)
+    n = 0
+    for st in ctx.m.walk_own(f.node):
+        if not (isinstance(st, ast.Assign) and isinstance(st.targets[0], ast.Subscript) and "contents" in unparse(st.targets[0].value)):
+            continue
+        v = st.value
+        # follow one level of locals
+        names = {x.id for x in ast.walk(v) if isinstance(x, ast.Name)}
+        if raw not in names:
+            continue
+        n += 1
+        facts = F.at(st) or set()
+        ok = any(b[0] == "cond" and b[2] is True and any(b[1] == f"len({sv}) == 1" for sv in split_vars) for b in facts) or any(b[0] == "eq" and any(f"len({sv})" in (str(b[1]), str(b[2])) and "1" in (str(b[1]), str(b[2])) for sv in split_vars) for b in facts if len(b) > 2)
+        k = key(f, st)[:90]
+        if ok:
+            R.ok("C02.R6", f.short, k, loc(f, st), f"under len({sorted(split_vars)[0] if split_vars else '?'}) == 1")
+        else:
+            R.violation("C02.R6", f.short, k, loc(f, st), f"`{raw}` is spliced into a single buffer line without the fact that the line splitter found exactly one line in it: text containing a line break the shortcut's own test does not know (a lone CR, CRLF) stays inside one server line while the client has two")
+    if n == 0:
+        R.ok("C02.R6", f.short, "no single-line shortcut", loc(f, f.node), "the raw text is never written into a line directly")
+
+
 def run(ctx, R):
     r1_r2(ctx, R)
     r3(ctx, R)
     r4(ctx, R)
     r5(ctx, R)
+    r6(ctx, R)
